@@ -18,7 +18,7 @@ RULE = ('case = generated config tree (JSON/YAML, uses with/without namespaces t
         'config changes neither the context nor other configs. non-trivial = context present and >=1 namespace, or injected error; '
         'distinct = hash(files, root, injection)')
 REQUIRED = ['builds', 'valid_specs', 'params_checked', 'expected_error_missing_param', 'expected_error_dtype', 'expected_error_conflict',
-            'errors_reported', 'alias_checks', 'context_cases', 'namespace_context_cases']
+            'errors_reported', 'alias_checks', 'context_cases', 'namespace_context_cases', 'repeated_namespace_word_cases']
 ASSUMPTIONS = ['precedence as in DESIGN.md Appendix A.2/A.3; contexts whose own entries overlap entries of a context they `use`, reserved keys inside '
                'contexts and name mode are outside the generator',
                'values of parameters excluded from persistence are not compared on tasks that are the same computation as another task of the '
@@ -67,6 +67,12 @@ def run_case(case) -> CaseResult:
         if rng.random() < 0.3:
             inject = rng.choice(['missing_param', 'dtype', 'conflict'])
         before = res.counters.get('valid_specs', 0)
+        if rng.random() < 0.08:
+            # a namespace word repeated along a mount path, contexts addressing it absolutely and from a mounted context
+            from ..lab import spec as S_
+            res.count('repeated_namespace_word_cases')
+            run_build_case(rng, res, PROPS, spec_root=S_.repeated_ns_spec(rng))
+            continue
         ref = run_build_case(rng, res, PROPS, feat=dict(FEAT, **case.get('feat', {})), inject=inject, after=alias_after)
         if len(res.violations) > 3:
             break
